@@ -592,6 +592,7 @@ func (r *Run) acquire(st *State, fr *Frame, lr LockRef, mode LockMode, in ssa.In
 	// lock order: every lock already held must rank below the one acquired
 	r.orderCheck(st, fr, lr, in)
 	st.Locks = append(st.Locks, HeldLock{Class: lr.Class, Base: lr.Base, Key: lr.Key, Mode: mode})
+	r.acquireLocal(st, fr, lr)
 	if lr.Class == "" {
 		return
 	}
@@ -609,6 +610,89 @@ func (r *Run) acquire(st *State, fr *Frame, lr LockRef, mode LockMode, in ssa.In
 			}
 		}
 	}
+}
+
+// guardLocal: `guard-local LOCKVAR : v1 v2 ...` in a function block — the local (usually captured) variables
+// v1.. are shared with concurrently running closures and only accessed while the mutex held in the local
+// variable LOCKVAR is locked. Returns the lock variable guarding the cell name, if any.
+func (e *Engine) guardLocal(fn *ssa.Function, name string) string {
+	b := e.cs.Funcs[e.fnName[fn]]
+	if b == nil {
+		return ""
+	}
+	for _, cl := range b.All("guard-local") {
+		if len(cl.Words) == 0 {
+			continue
+		}
+		for _, w := range strings.Fields(cl.Expr) {
+			if w == name {
+				return cl.Words[0]
+			}
+		}
+	}
+	return ""
+}
+
+// acquireLocal: at the acquisition of a guard-local lock other threads may have changed the guarded
+// variables: they get arbitrary values; in the function analysed on its own, old()/entry values of these
+// variables denote the values found at this acquisition.
+func (r *Run) acquireLocal(st *State, fr *Frame, lr LockRef) {
+	e := r.e
+	b := e.cs.Funcs[e.fnName[fr.Fn]]
+	if b == nil {
+		return
+	}
+	for _, cl := range b.All("guard-local") {
+		if len(cl.Words) == 0 {
+			continue
+		}
+		lc, ok := fr.Cells[cl.Words[0]]
+		if !ok {
+			continue
+		}
+		lv, ok := st.Cells[lc].(T)
+		if !ok || lv.S != lr.Key.S {
+			continue
+		}
+		for _, w := range strings.Fields(cl.Expr) {
+			c, ok := fr.Cells[w]
+			if !ok {
+				e.fail("guard-local: no local variable %s in %s", w, e.fnName[fr.Fn])
+				continue
+			}
+			v := e.freshVal(st, c.Typ, "acq_"+w)
+			st.Cells[c] = v
+			if len(st.Frames) == 1 {
+				st.Entry["fv:"+w] = v
+			}
+		}
+		e.note("guard-local in %s: {%s} re-read at the acquisition of %s (other threads may have changed them)", e.fnName[fr.Fn], cl.Expr, cl.Words[0])
+	}
+}
+
+// guardLocalCheck: an access to a guard-local variable needs its lock.
+func (r *Run) guardLocalCheck(st *State, fr *Frame, c *Cell, write bool, in ssa.Instruction) {
+	e := r.e
+	lockVar := e.guardLocal(fr.Fn, c.Name)
+	if lockVar == "" {
+		return
+	}
+	goal := False
+	if lc, ok := fr.Cells[lockVar]; ok {
+		if lv, ok := st.Cells[lc].(T); ok {
+			var ds []T
+			for _, l := range st.Locks {
+				ds = append(ds, Eq(l.Key, lv))
+			}
+			goal = Or(ds...)
+		}
+	}
+	kind := "r"
+	if write {
+		kind = "w"
+	}
+	e.emitWith(st, fmt.Sprintf("%s/own:guard-local-%s.%s", e.fnName[fr.Fn], c.Name, kind), "", nil, goal,
+		"local variable "+c.Name+" is only accessed with "+lockVar+" locked", e.posOf(in), []string{"C11"}, nil)
 }
 
 // assumeRely: `rely label : expr` clauses of the function being analysed are thread-local facts that are
